@@ -9,6 +9,8 @@ for d in dirs:
     if not os.path.exists(mp):
         continue
     meta = json.load(open(mp))
+    if 'property' not in meta:
+        continue          # harmless rewrites: run by their own script
     pid = meta['property']
     det = seedtest.detect(d, [pid])
     meta['detect'] = det
